@@ -215,7 +215,7 @@ func c09Build(k *fw.K, r *mrand.Rand, p c09Profile) *c09Doc {
 	}
 	for n, b := range files {
 		if err := d.doc.NewDG(n, b); err != nil {
-			fw.Bug("NewDG(%d) rejects a generated file: %v", n, err)
+			fw.LibFail("dg-rejected", "NewDG(%d) rejects a generated well-formed file: %v", n, err)
 		}
 	}
 	if p.cardSecurity {
